@@ -1049,11 +1049,17 @@ class OptionStore:
         new_value = opt.validate_value(new_value)
         if key in self.options:
             old_value = opt.value
+            # An option that stops yielding has changed, also when its own
+            # value happens to be the one given.
+            changed |= opt.yielding
             opt.set_value(new_value)
             opt.yielding = False
         else:
             assert key.subproject is not None
             old_value = self.augments.get(key, opt.value)
+            # A new per-subproject override has to be stored, also when it
+            # equals the value it overrides at the moment.
+            changed |= key not in self.augments
             self.augments[key] = new_value
 
         changed |= old_value != new_value
